@@ -52,7 +52,7 @@ fn total_entries(a: &[UnsignedPathSegment], b: &[UnsignedPathSegment]) -> u64 {
 
 fn mutate_segment(r: &mut Rng, s: &mut UnsignedPathSegment, pool: &[IsdAsn]) -> &'static str {
     let n = s.as_entries.len();
-    match r.below(16) {
+    match r.below(18) {
         0 if n > 0 => {
             let i = r.usize(n);
             s.as_entries.remove(i);
@@ -145,6 +145,18 @@ fn mutate_segment(r: &mut Rng, s: &mut UnsignedPathSegment, pool: &[IsdAsn]) -> 
                 p.peer_interface = 0;
             }
             "zero-peer-interfaces"
+        }
+        15 | 16 => {
+            // the same segment announced again with one peer entry missing (the remaining peer
+            // entries shift position)
+            let with_peers: Vec<usize> = (0..n).filter(|i| !s.as_entries[*i].peer_entries.is_empty()).collect();
+            if with_peers.is_empty() {
+                return "unchanged";
+            }
+            let i = *r.pick(&with_peers);
+            let k = r.usize(s.as_entries[i].peer_entries.len());
+            s.as_entries[i].peer_entries.remove(k);
+            "drop-peer-entry"
         }
         _ => "unchanged",
     }
@@ -516,7 +528,7 @@ pub fn run(args: &Args, mon: &mut Mon) -> (String, Vec<&'static str>) {
     mon.sample_labeled("soup", || json!({"segments": "5..40 random segments of 0..8 random entries over the topology's ASes"}));
 
     (
-        format!("{n_topo} generated topologies x up to 12 ordered pairs: the valid segment set alone and the valid set + 1..12 structurally mutated segments (15 mutation kinds) + random soup, shuffled; {n_soup} pure soups of 5..40 random segments; combine() runs over a counting Entry type. distinct = distinct mutation kinds and soup size/result classes observed."),
+        format!("{n_topo} generated topologies x up to 12 ordered pairs: the valid segment set alone and the valid set + 1..12 structurally mutated segments (16 mutation kinds) + random soup, shuffled; {n_soup} pure soups of 5..40 random segments; combine() runs over a counting Entry type. distinct = distinct mutation kinds and soup size/result classes observed."),
         vec![
             "step bound: 400·n^4 Entry::get calls for n total AS entries (n >= 4) — a logical bound, wall-clock is only a watchdog",
             "consistency of a returned path = its interface-id list equals the non-zero interfaces its hop fields traverse (reference derivation), even count, expiry equal to the hop-field expiry, endpoints equal to the request",
